@@ -619,15 +619,16 @@ func (env *specEnv) applySpecFunc(sf *SpecFunc, args []SVal) SVal {
 	ts := make([]Term, len(args))
 	for i, a := range args {
 		ts[i] = a.T
-		if want := specSort(sf.Params[i].Sort); want != a.T.Sort {
+		if want, _ := c.resolveSort(env.pkg, sf.Params[i].Sort); want != a.T.Sort {
 			specFail("spec func %s: argument %d has sort %s, want %s", sf.Name, i, a.T.Sort, want)
 		}
 	}
 	name := quote("spec " + sf.Name)
+	rs, rt := c.resolveSort(env.pkg, sf.Ret)
 	if len(ts) == 0 {
-		return SVal{T: Term{name, specSort(sf.Ret)}, GoT: specGoType(sf.Ret)}
+		return SVal{T: Term{name, rs}, GoT: rt}
 	}
-	return SVal{T: mk(specSort(sf.Ret), name, ts...), GoT: specGoType(sf.Ret)}
+	return SVal{T: mk(rs, name, ts...), GoT: rt}
 }
 
 // evalMethod: x.M(args) — a pure method of an external / interface type, modelled as an
